@@ -2,7 +2,7 @@
    inputs; the storage history of any event sequence is well-formed; every reply evaluates. *)
 From Coq Require Import ZArith List Bool Lia ZifyBool.
 From Burrow Require Import Int64 Int64Proofs F32 Eval EvalProofs EvalGroupProofs EvalCompleteProofs.
-From Burrow Require Import AMap AMapProofs Ring RingProofs Storage StorageProofs StorageWindows Pipeline.
+From Burrow Require Import AMap AMapProofs Ring RingProofs Storage StorageProofs StorageWindows StorageDelProofs Pipeline.
 From Burrow Require Wire WireProofs WireRoundtripProofs ClusterMod ClusterModProofs.
 Import ListNotations.
 Open Scope Z_scope.
@@ -75,6 +75,16 @@ Definition creach (cs : CM.state) : Prop :=
 
 Lemma creach_init : creach CM.init_state.
 Proof. exists []. split; [intros x []|reflexivity]. Qed.
+
+Lemma cfinal_wf l : forall st, CP.wf st -> CP.wf (cfinal st l).
+Proof.
+  induction l as [|[tk e] r IH]; intros st Hw; cbn [cfinal]; [exact Hw|].
+  destruct (CM.cycle (CM.tick tk st) e) as [o|] eqn:Ec; [|exact Hw].
+  apply IH. eapply CP.cycle_wf; [apply CP.wf_tick; exact Hw|exact Ec].
+Qed.
+
+Lemma creach_wf cs : creach cs -> CP.wf cs.
+Proof. intros [l [_ ->]]. apply cfinal_wf. apply CP.wf_init. Qed.
 
 Section Glue.
 Variable name : list Z -> Z.
@@ -343,3 +353,581 @@ Qed.
 
 End Run.
 End Glue.
+
+(* ================================================================================================================== *)
+(* End-to-end theorems                                                                                                  *)
+(* ================================================================================================================== *)
+Section EndToEnd.
+Variable name : list Z -> Z.
+
+Lemma pipe_exec_app pc evs1 : forall ps evs2,
+  pipe_exec name pc ps (evs1 ++ evs2) =
+  match pipe_exec name pc ps evs1 with
+  | None => None
+  | Some (ps1, o1, h1) =>
+      match pipe_exec name pc ps1 evs2 with
+      | None => None
+      | Some (ps2, o2, h2) => Some (ps2, o1 ++ o2, h1 ++ h2)
+      end
+  end.
+Proof.
+  induction evs1 as [|ev evs1 IH]; intros ps evs2; cbn [app pipe_exec].
+  - destruct (pipe_exec name pc ps evs2) as [[[ps2 o2] h2]|]; reflexivity.
+  - destruct (pipe_step name pc ps ev) as [[ps' outs]|]; [|reflexivity]. rewrite IH.
+    destruct (pipe_exec name pc ps' evs1) as [[[ps1 o1] h1]|]; [|reflexivity].
+    destruct (pipe_exec name pc ps1 evs2) as [[[ps2 o2] h2]|]; [|reflexivity].
+    rewrite !app_assoc. reflexivity.
+Qed.
+
+(* ------------------------------------------------------------------------------------------------------------------ *)
+(* e2e_malformed_ignored: a message from which the decoder forwards nothing changes nothing, now or later               *)
+(* ------------------------------------------------------------------------------------------------------------------ *)
+Lemma silent_message_step pc ps c key value o al :
+  Wire.process_message (pc_reader_accept pc c) key value o = Wire.Done [] al ->
+  pipe_step name pc ps (KafkaMessage c key value o) = Some (ps, []) /\
+  step_hist name pc ps (KafkaMessage c key value o) = [].
+Proof.
+  intros H. unfold pipe_step, step_hist. cbn [event_reqs]. rewrite H. cbn [map stamp run cluster_after].
+  destruct ps; split; reflexivity.
+Qed.
+
+(* the same run with the message taken out: same final state, same answers, same storage history *)
+Theorem silent_message_ignored pc ps evs1 evs2 c key value o al :
+  Wire.process_message (pc_reader_accept pc c) key value o = Wire.Done [] al ->
+  pipe_exec name pc ps (evs1 ++ KafkaMessage c key value o :: evs2) = pipe_exec name pc ps (evs1 ++ evs2).
+Proof.
+  intros H. rewrite !pipe_exec_app.
+  destruct (pipe_exec name pc ps evs1) as [[[ps1 o1] h1]|]; [|reflexivity].
+  cbn [pipe_exec]. destruct (silent_message_step pc ps1 c key value o al H) as [-> ->].
+  destruct (pipe_exec name pc ps1 evs2) as [[[ps2 o2] h2]|]; reflexivity.
+Qed.
+
+(* a commit message (key version 0 or 1) that is not well-formed - any field Burrow reads cut short or with an impossible
+   length, in the sense of C06 - is such a message, whatever the lists say *)
+Theorem malformed_commit_ignored pc ps evs1 evs2 c key value o :
+  WireRoundtripProofs.bytes key -> WireRoundtripProofs.bytes value -> WireProofs.is_commit_key key ->
+  ~ WireRoundtripProofs.commit_wellformed (pc_reader_accept pc c) key value ->
+  pipe_exec name pc ps (evs1 ++ KafkaMessage c key value o :: evs2) = pipe_exec name pc ps (evs1 ++ evs2).
+Proof.
+  intros Hk Hv Hck Hnw.
+  destruct (WireProofs.process_never_crashes (pc_reader_accept pc c) key value o) as (rs & al & Hp).
+  pose proof (WireRoundtripProofs.commit_malformed_skipped _ _ _ _ _ _ Hk Hv Hck Hnw Hp) as ->.
+  eapply silent_message_ignored; exact Hp.
+Qed.
+
+(* a key without a version, or with a version other than 0, 1, 2, likewise *)
+Theorem unknown_key_ignored pc ps evs1 evs2 c key value o :
+  match Wire.read_i16 key with
+  | None => True
+  | Some (kv, _) => kv <> 0 /\ kv <> 1 /\ kv <> 2
+  end ->
+  pipe_exec name pc ps (evs1 ++ KafkaMessage c key value o :: evs2) = pipe_exec name pc ps (evs1 ++ evs2).
+Proof.
+  intros H. apply (silent_message_ignored pc ps evs1 evs2 c key value o []).
+  unfold Wire.process_message, Wire.process_message_gen. destruct (Wire.read_i16 key) as [[kv kr]|]; [|reflexivity].
+  destruct H as (H0 & H1 & H2).
+  replace (kv =? 0) with false by (symmetry; apply Z.eqb_neq; exact H0).
+  replace (kv =? 1) with false by (symmetry; apply Z.eqb_neq; exact H1).
+  replace (kv =? 2) with false by (symmetry; apply Z.eqb_neq; exact H2). reflexivity.
+Qed.
+
+(* ------------------------------------------------------------------------------------------------------------------ *)
+(* e2e_rejected_invisible: C10 across reader + storage                                                                  *)
+(* ------------------------------------------------------------------------------------------------------------------ *)
+Hypothesis name_inj : forall a b, name a = name b -> a = b.
+
+
+Lemma run_absent cf c gz h : forall s s' reps,
+  (forall x, In x h -> ~ creates_group c gz (snd x) \/ cf_accept cf gz = false) ->
+  absent_group s c gz -> run cf s h = Some (s', reps) -> absent_group s' c gz.
+Proof.
+  induction h as [|[now r] h IH]; intros s s' reps Hall Ha Hr; cbn [run] in Hr.
+  - injection Hr as <- _. exact Ha.
+  - destruct (step cf now s r) as [s1 rep|] eqn:Es; [|discriminate].
+    destruct (run cf s1 h) as [[s2 reps2]|] eqn:Er; [|discriminate]. injection Hr as <- _.
+    apply (IH s1 s2 reps2); [intros x Hx; apply Hall; right; exact Hx| |exact Er].
+    destruct (Hall (now, r) (or_introl eq_refl)) as [Hn|Hrej]; cbn [snd] in *.
+    + eapply step_absent_group; eauto.
+    + eapply step_absent_group_rejected; eauto.
+Qed.
+
+(* the group g0 of cluster c is rejected by the reader of that cluster or by storage *)
+Definition rejected_somewhere (pc : pconfig) (c : Z) (g0 : list Z) : Prop :=
+  pc_reader_accept pc c g0 = false \/ cf_accept (pc_storage pc) (name g0) = false.
+
+Lemma event_reqs_no_create pc ps ev c g0 rs :
+  rejected_somewhere pc c g0 -> event_reqs name pc ps ev = Some rs ->
+  forall r, In r rs -> ~ creates_group c (name g0) r \/ cf_accept (pc_storage pc) (name g0) = false.
+Proof.
+  intros [Hrd|Hst] Hrs r Hr; [|right; exact Hst]. left.
+  destruct ev as [c' key value o|c' tk e|c' g sa|now]; cbn [event_reqs] in Hrs.
+  - destruct (Wire.process_message (pc_reader_accept pc c') key value o) as [w|rs0 al] eqn:Hp; [discriminate|].
+    injection Hrs as <-. apply in_map_iff in Hr as [r0 [<- Hr0]].
+    pose proof (WireProofs.reader_rejected_silent _ _ _ _ _ _ Hp) as Hacc. rewrite Forall_forall in Hacc.
+    specialize (Hacc r0 Hr0).
+    destruct r0; cbn [wire_to_storage creates_group Wire.req_group] in *; try tauto;
+      intros [-> Hn]; apply name_inj in Hn; subst; congruence.
+  - destruct (get (p_cluster ps) c') as [cs|]; [|injection Hrs as <-; contradiction].
+    destruct (ClusterMod.cycle (ClusterMod.tick tk cs) e) as [o|]; [|discriminate]. injection Hrs as <-.
+    unfold cluster_to_storage in Hr. apply in_app_or in Hr as [Hr|Hr]; apply in_map_iff in Hr as [x [<- _]].
+    + cbn. tauto.
+    + destruct x as [[[t p] off] cnt]. cbn. tauto.
+  - injection Hrs as <-. destruct Hr as [<-|[]]. cbn. tauto.
+  - injection Hrs as <-. contradiction.
+Qed.
+
+Lemma fetch_absent cf now s c gz s' rep :
+  absent_group s c gz -> step cf now s (FetchConsumer c gz) = Done s' rep -> s' = s /\ rep = RNil.
+Proof.
+  intros Ha. cbn [step]. unfold fetch_consumer. destruct (get s c) as [cl|] eqn:Hc.
+  - rewrite (Ha cl Hc). intros H; injection H as <- <-. auto.
+  - intros H; injection H as <- <-. auto.
+Qed.
+
+Lemma pipe_exec_rejected pc c g0 evs : forall ps ps' outs h,
+  rejected_somewhere pc c g0 ->
+  absent_group (p_storage ps) c (name g0) ->
+  pipe_exec name pc ps evs = Some (ps', outs, h) ->
+  absent_group (p_storage ps') c (name g0) /\
+  forall sa r, In (OStatus c (name g0) sa r) outs -> r = None.
+Proof.
+  induction evs as [|ev evs IH]; intros ps ps' outs h Hrej Ha He; cbn [pipe_exec] in He.
+  - injection He as <- <- _. split; [exact Ha|intros sa r []].
+  - destruct (pipe_step name pc ps ev) as [[ps1 outs1]|] eqn:Es; [|discriminate].
+    destruct (pipe_exec name pc ps1 evs) as [[[ps2 outs2] h2]|] eqn:Ee; [|discriminate]. injection He as <- <- _.
+    assert (H1 : absent_group (p_storage ps1) c (name g0) /\ forall sa r, In (OStatus c (name g0) sa r) outs1 -> r = None).
+    { destruct ev as [c' key value o|c' tk e|c' g sa|now]; cbn [pipe_step] in Es.
+      - destruct (event_reqs name pc ps (KafkaMessage c' key value o)) as [rs|] eqn:Er; [|discriminate].
+        destruct (run (pc_storage pc) (p_storage ps) (stamp (p_now ps) rs)) as [[st' reps]|] eqn:Erun; [|discriminate].
+        injection Es as <- <-. cbn [p_storage]. split; [|intros sa r []].
+        eapply run_absent; [|exact Ha|exact Erun]. intros x Hx. unfold stamp in Hx. apply in_map_iff in Hx as [r [<- Hr]].
+        cbn [snd]. eapply event_reqs_no_create; eauto.
+      - destruct (event_reqs name pc ps (ClusterCycle c' tk e)) as [rs|] eqn:Er; [|discriminate].
+        destruct (run (pc_storage pc) (p_storage ps) (stamp (p_now ps) rs)) as [[st' reps]|] eqn:Erun; [|discriminate].
+        injection Es as <- <-. cbn [p_storage]. split; [|intros sa r []].
+        eapply run_absent; [|exact Ha|exact Erun]. intros x Hx. unfold stamp in Hx. apply in_map_iff in Hx as [r [<- Hr]].
+        cbn [snd]. eapply event_reqs_no_create; eauto.
+      - destruct (step (pc_storage pc) (p_now ps) (p_storage ps) (FetchConsumer c' (name g))) as [st' rep|] eqn:Ef; [|discriminate].
+        destruct (answer pc (p_now ps) c' (name g) sa rep) as [outs0|] eqn:Ea; [|discriminate]. injection Es as <- <-.
+        cbn [p_storage]. split.
+        + eapply step_absent_group; [exact Ha| |exact Ef]. cbn. tauto.
+        + intros sa' r Hin. unfold answer in Ea.
+          destruct (Z.eq_dec c' c) as [->|Hc]; [destruct (Z.eq_dec (name g) (name g0)) as [Hg|Hg]|].
+          * rewrite Hg in Ef. destruct (fetch_absent _ _ _ _ _ _ _ Ha Ef) as [_ ->].
+            injection Ea as <-. destruct Hin as [Hin|[]]. injection Hin as _ _ <-. reflexivity.
+          * destruct rep; try (injection Ea as <-; destruct Hin as [Hin|[]]; injection Hin as ? _ _; contradiction).
+            destruct (eval_group _ _ _ _); [|discriminate]. injection Ea as <-. destruct Hin as [Hin|[]]. injection Hin as ? _ _. contradiction.
+          * destruct rep; try (injection Ea as <-; destruct Hin as [Hin|[]]; injection Hin as ? _ _ _; contradiction).
+            destruct (eval_group _ _ _ _); [|discriminate]. injection Ea as <-. destruct Hin as [Hin|[]]. injection Hin as ? _ _ _. contradiction.
+      - injection Es as <- <-. split; [exact Ha|intros sa r []]. }
+    destruct H1 as [Ha1 Ho1]. destruct (IH ps1 ps2 outs2 h2 Hrej Ha1 Ee) as [Ha2 Ho2].
+    split; [exact Ha2|]. intros sa r Hin. apply in_app_or in Hin as [Hin|Hin]; eauto.
+Qed.
+
+(* A group that the reader's lists of its cluster or storage's lists reject appears in no status (every answer for it
+   is the 404 reply) and is absent from storage (hence from every listing, C10_storage) after ANY event sequence. *)
+Theorem rejected_invisible pc now0 c g0 evs ps outs h :
+  rejected_somewhere pc c g0 ->
+  pipe_run name pc now0 evs = Some (ps, outs, h) ->
+  (forall sa r, In (OStatus c (name g0) sa r) outs -> r = None) /\
+  absent_group (p_storage ps) c (name g0).
+Proof.
+  intros Hrej Hrun. unfold pipe_run in Hrun.
+  destruct (pipe_exec_rejected pc c g0 evs (pinit pc now0) ps outs h Hrej) as [H1 H2]; [|exact Hrun|auto].
+  unfold pinit. cbn [p_storage]. apply absent_init.
+Qed.
+
+(* ------------------------------------------------------------------------------------------------------------------ *)
+(* e2e_lag_exact                                                                                                        *)
+(* ------------------------------------------------------------------------------------------------------------------ *)
+
+(* -- the broker side: the last offset a broker ANSWERED for (c, t, p), as a function of the events -- *)
+Fixpoint find_update (ups : list CM.update) (t p : Z) : option Z :=
+  match ups with
+  | [] => None
+  | (t', p', off, _) :: rest =>
+      match find_update rest t p with
+      | Some b => Some b
+      | None => if (t' =? t) && (p' =? p) then Some off else None
+      end
+  end.
+
+Lemma find_update_in ups t p b : find_update ups t p = Some b -> exists cnt, In (t, p, b, cnt) ups.
+Proof.
+  induction ups as [|[[[t' p'] off] cnt] ups IH]; cbn [find_update]; [discriminate|].
+  destruct (find_update ups t p) as [b'|].
+  - intros H. injection H as ->. destruct (IH eq_refl) as [cnt' H]. exists cnt'. right. exact H.
+  - destruct ((t' =? t) && (p' =? p)) eqn:E; [|discriminate]. intros H. injection H as ->.
+    apply andb_true_iff in E as [E1 E2]. apply Z.eqb_eq in E1, E2. subst. exists cnt. left. reflexivity.
+Qed.
+
+(* the update of (t, p) in the cycle this event is, if it is a cycle of cluster c that produced one *)
+Definition answered_in (ps : pstate) (ev : pevent) (c t p : Z) : option Z :=
+  match ev with
+  | ClusterCycle c' tk e =>
+      if c' =? c then
+        match get (p_cluster ps) c' with
+        | Some cs => match CM.cycle (CM.tick tk cs) e with
+                     | CM.Done o => find_update (CM.co_updates o) t p
+                     | CM.Crash => None
+                     end
+        | None => None
+        end
+      else None
+  | _ => None
+  end.
+
+Fixpoint last_answer (pc : pconfig) (ps : pstate) (evs : list pevent) (c t p : Z) : option Z :=
+  match evs with
+  | [] => None
+  | ev :: rest =>
+      match pipe_step name pc ps ev with
+      | None => None
+      | Some (ps', _) =>
+          match last_answer pc ps' rest c t p with
+          | Some b => Some b
+          | None => answered_in ps ev c t p
+          end
+      end
+  end.
+
+Lemma last_broker_none now rs c t p :
+  (forall r, In r rs -> is_broker c t p r = None) -> last_broker (stamp now rs) c t p = None.
+Proof.
+  induction rs as [|r rs IH]; intros H; cbn [stamp map last_broker]; [reflexivity|].
+  unfold stamp in IH. rewrite IH by (intros r' Hr'; apply H; right; exact Hr').
+  apply H. left. reflexivity.
+Qed.
+
+Lemma last_broker_updates now c' ups c t p :
+  last_broker (stamp now (map (update_to_storage c') ups)) c t p = if c' =? c then find_update ups t p else None.
+Proof.
+  induction ups as [|[[[t' p'] off] cnt] ups IH]; cbn [stamp map last_broker find_update].
+  - destruct (c' =? c); reflexivity.
+  - unfold stamp in IH. rewrite IH. cbn [update_to_storage is_broker].
+    destruct (c' =? c); cbn [andb]; [|reflexivity]. destruct (find_update ups t p); reflexivity.
+Qed.
+
+Lemma last_broker_step_hist pc ps ev c t p :
+  last_broker (step_hist name pc ps ev) c t p = answered_in ps ev c t p.
+Proof.
+  unfold step_hist. destruct ev as [c' key value o|c' tk e|c' g sa|now]; cbn [event_reqs answered_in].
+  - destruct (Wire.process_message (pc_reader_accept pc c') key value o) as [w|rs al]; [reflexivity|].
+    apply last_broker_none. intros r Hr. apply in_map_iff in Hr as [r0 [<- _]]. destruct r0; reflexivity.
+  - destruct (get (p_cluster ps) c') as [cs|]; [|destruct (c' =? c); reflexivity].
+    destruct (CM.cycle (CM.tick tk cs) e) as [o|]; [|destruct (c' =? c); reflexivity].
+    unfold cluster_to_storage, stamp. rewrite map_app, last_broker_app.
+    fold (stamp (p_now ps) (map (update_to_storage c') (CM.co_updates o))). rewrite last_broker_updates.
+    destruct (c' =? c); [destruct (find_update (CM.co_updates o) t p); [reflexivity|]|];
+      (apply (last_broker_none (p_now ps) (map (DeleteTopic c') (CM.co_deletes o)));
+       intros r Hr; apply in_map_iff in Hr as [x [<- _]]; reflexivity).
+  - reflexivity.
+  - reflexivity.
+Qed.
+
+(* the history's last_broker (C01's spec function) is the events' last answer *)
+Lemma last_broker_pipe pc c t p evs : forall ps ps' outs h,
+  pipe_exec name pc ps evs = Some (ps', outs, h) -> last_broker h c t p = last_answer pc ps evs c t p.
+Proof.
+  induction evs as [|ev evs IH]; intros ps ps' outs h He; cbn [pipe_exec last_answer] in *.
+  - injection He as _ _ <-. reflexivity.
+  - destruct (pipe_step name pc ps ev) as [[ps1 outs1]|]; [|discriminate].
+    destruct (pipe_exec name pc ps1 evs) as [[[ps2 outs2] h2]|] eqn:Ee; [|discriminate]. injection He as _ _ <-.
+    rewrite last_broker_app, (IH ps1 ps2 outs2 h2 Ee), last_broker_step_hist. reflexivity.
+Qed.
+
+(* -- the commit side: every stored commit is the (offset, position) of an arrival -- *)
+Lemma ring_run_entries md n l e :
+  In (Some e) (ring_run md n l) -> exists cl, In cl l /\ co_offset e = cm_offset (fst cl) /\ co_order e = cm_order (fst cl).
+Proof.
+  induction l as [|cl l IH] using rev_ind; intros Hin.
+  - unfold ring_run in Hin. cbn [fold_left] in Hin. unfold new_ring in Hin. apply repeat_spec in Hin. discriminate.
+  - rewrite ring_run_snoc in Hin.
+    destruct (ring_step md (ring_run md n l) (fst cl) (snd cl)) as [r' app] eqn:Es. cbn [fst] in Hin.
+    destruct (ring_step_slots _ _ _ _ _ _ _ Es Hin) as [Hold|(e' & He' & Hn)].
+    + destruct (IH Hold) as (cl0 & Hin0 & H). exists cl0. split; [apply in_or_app; left; exact Hin0|exact H].
+    + injection He' as <-. destruct Hn as (H1 & H2 & _). exists cl. split; [apply in_or_app; right; left; reflexivity|auto].
+Qed.
+
+(* an arrival is a commit request of the history *)
+Lemma arrivals_in_hist cf cls c g t p h : forall x,
+  In x (arrivals cf cls h c g t p) ->
+  exists now, In (now, SetConsumerOffset c g t p (cm_offset (fst x)) (cm_order (fst x)) (cm_ts (fst x))) h.
+Proof.
+  induction h as [|[now r] h IH] using rev_ind; intros x Hin.
+  - unfold arrivals in Hin. cbn in Hin. contradiction.
+  - unfold arrivals in Hin. rewrite arrivals_from_snoc in Hin. fold (arrivals cf cls h c g t p) in Hin.
+    assert (Hold : In x (arrivals cf cls h c g t p) ->
+                   exists now0, In (now0, SetConsumerOffset c g t p (cm_offset (fst x)) (cm_order (fst x)) (cm_ts (fst x))) (h ++ [(now, r)])).
+    { intros H. destruct (IH x H) as [now0 H0]. exists now0. apply in_or_app. left. exact H0. }
+    destruct (run cf (init_state cls) h) as [[st1 r1]|]; [|auto].
+    destruct (step cf now st1 r) as [st2 rep|]; [|auto].
+    unfold next_arrivals in Hin. destruct (is_commit_for c g t p r) as [[[off order] ts]|] eqn:Eic.
+    + apply is_commit_for_some in Eic. subst r.
+      destruct (reaches_ring cf now st1 c g t p ts); [|auto].
+      apply in_app_or in Hin as [Hin|[<-|[]]]; [auto|]. exists now. apply in_or_app. right. left. reflexivity.
+    + destruct (resets cf now st1 c g t r); [contradiction|auto].
+Qed.
+
+(* a commit request of the pipeline's history was decoded from a message of that cluster's reader, and carries the
+   message's own log position *)
+Lemma hist_from_message pc c gz tz p off order ts evs : forall ps ps' outs h now,
+  pipe_exec name pc ps evs = Some (ps', outs, h) ->
+  In (now, SetConsumerOffset c gz tz p off order ts) h ->
+  exists key value rs al g0 t0,
+    In (KafkaMessage c key value order) evs /\
+    Wire.process_message (pc_reader_accept pc c) key value order = Wire.Done rs al /\
+    In (Wire.SetConsumerOffset g0 t0 p off ts order) rs /\ name g0 = gz /\ name t0 = tz.
+Proof.
+  induction evs as [|ev evs IH]; intros ps ps' outs h now He Hin; cbn [pipe_exec] in He.
+  - injection He as _ _ <-. contradiction.
+  - destruct (pipe_step name pc ps ev) as [[ps1 outs1]|]; [|discriminate].
+    destruct (pipe_exec name pc ps1 evs) as [[[ps2 outs2] h2]|] eqn:Ee; [|discriminate]. injection He as _ _ <-.
+    apply in_app_or in Hin as [Hin|Hin].
+    + unfold step_hist in Hin. destruct ev as [c' key value o|c' tk e|c' g sa|now']; cbn [event_reqs] in Hin.
+      * destruct (Wire.process_message (pc_reader_accept pc c') key value o) as [w|rs al] eqn:Hp; [contradiction|].
+        unfold stamp in Hin. apply in_map_iff in Hin as [r [Hr Hin]]. injection Hr as _ Hr.
+        apply in_map_iff in Hin as [r0 [Hr0 Hin0]]. subst r.
+        pose proof (WireRoundtripProofs.in_range _ _ _ _ _ _ Hp) as Hrng. rewrite Forall_forall in Hrng. specialize (Hrng r0 Hin0).
+        destruct r0 as [g0 t0 p0 off0 ts0 order0| | |]; cbn [wire_to_storage] in Hr0; try discriminate.
+        injection Hr0 as -> <- <- <- <- <- <-. cbn in Hrng. destruct Hrng as (_ & _ & _ & ->).
+        exists key, value, rs, al, g0, t0. split; [left; reflexivity|]. auto.
+      * destruct (get (p_cluster ps) c') as [cs|]; [|contradiction].
+        destruct (CM.cycle (CM.tick tk cs) e) as [o|]; [|contradiction].
+        unfold stamp in Hin. apply in_map_iff in Hin as [r [Hr Hin]]. injection Hr as _ Hr. subst r.
+        unfold cluster_to_storage in Hin. apply in_app_or in Hin as [Hin|Hin]; apply in_map_iff in Hin as [x [Hx _]];
+          [discriminate|destruct x as [[[? ?] ?] ?]; discriminate].
+      * destruct Hin as [Hin|[]]. discriminate.
+      * contradiction.
+    + destruct (IH ps1 ps2 outs2 h2 now Ee Hin) as (key & value & rs & al & g0 & t0 & H1 & H2).
+      exists key, value, rs, al, g0, t0. split; [right; exact H1|exact H2].
+Qed.
+
+(* -- the evaluator side: a partition status of the answer is the evaluation of one partition of storage's reply -- *)
+Lemma eval_parts_in t ps minimum allowed now : forall i l pst,
+  eval_parts t i ps minimum allowed now = Ok l -> In pst l ->
+  exists k cp s st en cpl, nth_error ps k = Some cp /\ eval_partition cp minimum allowed now = Ok (s, st, en, cpl) /\
+    pst = mkPstatus t (i + Z.of_nat k) (cp_owner cp) (cp_client cp) s st en (cp_lag cp) cpl.
+Proof.
+  induction ps as [|p ps IH]; intros i l pst He Hin; cbn [eval_parts] in He.
+  - injection He as <-. contradiction.
+  - destruct (eval_partition p minimum allowed now) as [[[[s st] en] cpl]|] eqn:Ep; [|discriminate].
+    destruct (eval_parts t (i + 1) ps minimum allowed now) as [l'|] eqn:El; [|discriminate]. injection He as <-.
+    destruct Hin as [<-|Hin].
+    + exists 0%nat, p, s, st, en, cpl. split; [reflexivity|]. split; [exact Ep|]. f_equal. cbn. lia.
+    + destruct (IH (i + 1) l' pst El Hin) as (k & cp & s' & st' & en' & cpl' & H1 & H2 & ->).
+      exists (S k), cp, s', st', en', cpl'. split; [exact H1|]. split; [exact H2|]. f_equal. lia.
+Qed.
+
+Lemma eval_topics_in ts minimum allowed now : forall l pst,
+  eval_topics ts minimum allowed now = Ok l -> In pst l ->
+  exists t cps k cp s st en cpl, In (t, cps) ts /\ nth_error cps k = Some cp /\
+    eval_partition cp minimum allowed now = Ok (s, st, en, cpl) /\
+    pst = mkPstatus t (Z.of_nat k) (cp_owner cp) (cp_client cp) s st en (cp_lag cp) cpl.
+Proof.
+  induction ts as [|[t cps] ts IH]; intros l pst He Hin; cbn [eval_topics] in He.
+  - injection He as <-. contradiction.
+  - destruct (eval_parts t 0 cps minimum allowed now) as [l1|] eqn:E1; [|discriminate].
+    destruct (eval_topics ts minimum allowed now) as [l2|] eqn:E2; [|discriminate]. injection He as <-.
+    apply in_app_or in Hin as [Hin|Hin].
+    + destruct (eval_parts_in t cps minimum allowed now 0 l1 pst E1 Hin) as (k & cp & s & st & en & cpl & H1 & H2 & H3).
+      exists t, cps, k, cp, s, st, en, cpl. split; [left; reflexivity|]. auto.
+    + destruct (IH l2 pst eq_refl Hin) as (t' & cps' & k & cp & s & st & en & cpl & H0 & H).
+      exists t', cps', k, cp, s, st, en, cpl. split; [right; exact H0|exact H].
+Qed.
+
+Lemma last_cons_cons {A} (a b : A) l d : last (a :: b :: l) d = last (b :: l) d.
+Proof. reflexivity. Qed.
+
+Lemma last_repeat_none {A} b : last (repeat (@None A) b) None = None.
+Proof.
+  induction b as [|b IH]; [reflexivity|]. destruct b as [|b]; [reflexivity|].
+  change (repeat (@None A) (S (S b))) with (@None A :: None :: repeat None b). rewrite last_cons_cons. exact IH.
+Qed.
+
+Lemma last_app_cons {A} (l1 : list A) x l2 d : last (l1 ++ x :: l2) d = last (x :: l2) d.
+Proof.
+  induction l1 as [|a l1 IH]; [reflexivity|]. cbn [app]. destruct (l1 ++ x :: l2) eqn:E.
+  - destruct l1; discriminate.
+  - rewrite last_cons_cons. exact IH.
+Qed.
+
+Lemma last_indep {A} (l : list A) a d d' : last (a :: l) d = last (a :: l) d'.
+Proof. revert a. induction l as [|x l IH]; intros a; [reflexivity|]. rewrite !last_cons_cons. apply IH. Qed.
+
+Lemma last_map_some {A} (l : list A) : forall c0, last (map Some (c0 :: l)) None = Some (last (c0 :: l) c0).
+Proof.
+  induction l as [|a l IH]; intros c0; [reflexivity|].
+  change (map Some (c0 :: a :: l)) with (Some c0 :: Some a :: map Some l).
+  rewrite !last_cons_cons. change (Some a :: map Some l) with (map Some (a :: l)). rewrite IH. f_equal. apply last_indep.
+Qed.
+
+(* the End of a partition status is the newest slot of the window *)
+Lemma eval_partition_end cp minimum allowed now s st en cpl :
+  storage_shaped cp -> eval_partition cp minimum allowed now = Ok (s, st, en, cpl) -> en = last (cp_offsets cp) None.
+Proof.
+  intros [(b & cs & Hsh) _] He. destruct cs as [|c0 cs].
+  - cbn [map] in Hsh. rewrite app_nil_r in Hsh. rewrite (eval_partition_all_nil b cp minimum allowed now Hsh) in He.
+    injection He as _ _ <- _. rewrite Hsh. symmetry. apply last_repeat_none.
+  - rewrite (eval_partition_shape _ _ _ _ _ _ _ Hsh) in He. injection He as _ _ <- _.
+    rewrite Hsh. cbn [map]. rewrite last_app_cons. symmetry. apply (last_map_some cs c0).
+Qed.
+
+Lemma last_some_in {A} (l : list (option A)) k : last l None = Some k -> In (Some k) l.
+Proof.
+  induction l as [|a l IH]; [discriminate|]. destruct l as [|b l]; [cbn; intros ->; left; reflexivity|].
+  rewrite last_cons_cons. intros H. right. apply IH. exact H.
+Qed.
+
+Section Main.
+Variable pc : pconfig.
+Hypothesis HN : (1 <= cf_intervals (pc_storage pc))%nat.
+Hypothesis H24 : Z.of_nat (cf_intervals (pc_storage pc)) <= 2 ^ 24.
+
+(* what a status request answers after a run: the evaluation of storage's reply *)
+Lemma status_request_answer ps c g showall ps' cz gz sa gsv :
+  pipe_step name pc ps (StatusRequest c g showall) = Some (ps', [OStatus cz gz sa (Some gsv)]) ->
+  exists st' l gs,
+    fetch_consumer (pc_storage pc) (p_now ps) (p_storage ps) c (name g) = Done st' (RConsumer l) /\
+    eval_group l (pc_minimum pc) (pc_allowed pc) (p_now ps) = Ok gs /\
+    gsv = view showall gs /\ cz = c /\ gz = name g /\ sa = showall.
+Proof.
+  cbn [pipe_step step].
+  destruct (fetch_consumer (pc_storage pc) (p_now ps) (p_storage ps) c (name g)) as [st' rep|] eqn:Ef; [|discriminate].
+  unfold answer, reply_to_eval. destruct rep as [| | | |l]; try (intros H; injection H as _ _ _ _ H; discriminate).
+  destruct (eval_group l (pc_minimum pc) (pc_allowed pc) (p_now ps)) as [gs|] eqn:Eg; [|discriminate].
+  intros H. injection H as _ <- <- <- <-. exists st', l, gs. auto 10.
+Qed.
+
+(* e2e_lag_exact.  After ANY event sequence, in the answer to a status request for (cluster c, group g): every listed
+   partition has 0 <= CurrentLag < 2^64; a partition that reports no commit has CurrentLag 0; a partition whose newest
+   reported commit is k has
+     CurrentLag = max 0 (b - offset of k), b = the offset a broker answered for (c, topic, partition) in the last cluster
+                  cycle of c that got an answer for it ([last_answer], characterised by [last_answer_spec] below);
+     k is the (offset, log position) of a commit the reader of c decoded from a message of the sequence, the log position
+       being that message's own (C06_commit_update_wellformed / C07_offset_roundtrip say which bytes decode to it);
+     and no commit that reached the window since it was last removed - the commits not dropped on arrival by the documented
+       rules (StorageWindows.arrivals: known cluster, not older than expire-group, accepted by the lists, broker offset
+       known for the partition) - has a higher log position;
+   and TotalLag is the sum of the listed CurrentLags modulo 2^64. *)
+Theorem lag_exact now0 evs ps outs h c g showall ps' cz gz sa gsv :
+  Forall event_ok evs ->
+  pipe_run name pc now0 evs = Some (ps, outs, h) ->
+  pipe_step name pc ps (StatusRequest c g showall) = Some (ps', [OStatus cz gz sa (Some gsv)]) ->
+  exists gs,
+    gsv = view showall gs /\ cz = c /\ gz = name g /\ sa = showall /\
+    (forall pst, In pst (gs_partitions gs) ->
+       0 <= ps_lag pst < two64 /\
+       match ps_end pst with
+       | None => ps_lag pst = 0
+       | Some k =>
+           (exists b, last_answer pc (pinit pc now0) evs c (ps_topic pst) (ps_partition pst) = Some b /\
+                      ps_lag pst = Z.max 0 (b - co_offset k)) /\
+           (exists key value rs al g0 t0 ts,
+               In (KafkaMessage c key value (co_order k)) evs /\
+               Wire.process_message (pc_reader_accept pc c) key value (co_order k) = Wire.Done rs al /\
+               In (Wire.SetConsumerOffset g0 t0 (ps_partition pst) (co_offset k) ts (co_order k)) rs /\
+               name g0 = name g /\ name t0 = ps_topic pst) /\
+           (forall x, In x (arrivals (pc_storage pc) (pc_clusters pc) h c (name g) (ps_topic pst) (ps_partition pst)) ->
+                      cm_order (fst x) <= co_order k)
+       end) /\
+    gs_totallag gs = fold_right Z.add 0 (map ps_lag (gs_partitions gs)) mod two64.
+Proof.
+  intros Hok Hrun Hstep.
+  destruct (pipeline_hist_wf name pc HN H24 now0 evs Hok) as (ps0 & outs0 & h0 & Hrun0 & Hwf & _ & [reps Hr]).
+  rewrite Hrun in Hrun0. injection Hrun0 as <- <- <-.
+  destruct (status_request_answer _ _ _ _ _ _ _ _ _ Hstep) as (st' & l & gs & Hf & Hg & -> & -> & -> & ->).
+  exists gs. do 4 (split; [reflexivity|]).
+  destruct (eval_group_spec _ _ _ _ _ Hg) as (parts & Het & Hparts & _ & _ & _ & Htot & Hlags & _).
+  pose proof (reply_shaped _ _ _ _ _ _ _ _ _ _ HN H24 Hwf Hr Hf) as Hshaped.
+  set (cf := pc_storage pc) in *. set (cls := pc_clusters pc) in *.
+  assert (Hlag : forall t cps i cp, In (t, cps) l -> nth_error cps i = Some cp -> 0 <= cp_lag cp < two64).
+  { intros t cps i cp Hin Hi.
+    pose proof (StorageProofs.current_lag_exact cf cls h _ _ _ _ _ _ _ _ _ _ _ HN Hwf Hr Hf Hin Hi) as Hc.
+    destruct (last (cp_offsets cp) None); [destruct Hc as (b & _ & _ & _ & H); exact H|rewrite Hc; unfold two64; lia]. }
+  split.
+  - intros pst Hpst. rewrite Hparts in Hpst.
+    destruct (eval_topics_in _ _ _ _ _ _ Het Hpst) as (t & cps & i & cp & s & st & en & cpl & Hin & Hi & Hev & ->).
+    cbn [ps_lag ps_end ps_topic ps_partition].
+    split; [eapply Hlag; eauto|].
+    assert (Hsh : storage_shaped cp).
+    { rewrite Forall_forall in Hshaped. apply Hshaped. unfold all_parts. apply in_flat_map. exists (t, cps).
+      split; [exact Hin|]. cbn [snd]. eapply nth_error_In; exact Hi. }
+    rewrite (eval_partition_end _ _ _ _ _ _ _ _ Hsh Hev).
+    pose proof (StorageProofs.current_lag_exact cf cls h _ _ _ _ _ _ _ _ _ _ _ HN Hwf Hr Hf Hin Hi) as Hc.
+    destruct (last (cp_offsets cp) None) as [k|] eqn:Elast; [|exact Hc].
+    destruct Hc as (b & Hlb & _ & Hcl & _).
+    destruct (storage_reply_windows cf cls h _ _ _ _ _ _ _ _ _ _ _ HN Hwf Hr Hf Hin Hi) as [He|[Hro _]].
+    { rewrite He in Elast. discriminate. }
+    set (arr := arrivals cf cls h c (name g) t (Z.of_nat i)) in *.
+    assert (Hk : In (Some k) (ring_run (cf_min_distance cf) (cf_intervals cf) arr)).
+    { apply last_some_in in Elast. rewrite Hro in Elast. unfold readout in Elast. apply in_rev in Elast. exact Elast. }
+    destruct (ring_run_entries _ _ _ _ Hk) as (cl & Hcl_in & Hoff & Hord).
+    split; [|split].
+    + exists b. split; [|exact Hcl]. unfold pipe_run in Hrun. rewrite <- (last_broker_pipe pc c t (Z.of_nat i) evs _ _ _ _ Hrun). exact Hlb.
+    + destruct (arrivals_in_hist cf cls c (name g) t (Z.of_nat i) h cl Hcl_in) as [now Hh].
+      rewrite <- Hoff, <- Hord in Hh. unfold pipe_run in Hrun.
+      destruct (hist_from_message pc c (name g) t (Z.of_nat i) (co_offset k) (co_order k) (cm_ts (fst cl)) evs _ _ _ _ now Hrun Hh)
+        as (key & value & rs & al & g0 & t0 & H1 & H2 & H3 & H4 & H5).
+      exists key, value, rs, al, g0, t0, (cm_ts (fst cl)). auto 10.
+    + assert (Hne : arr <> []) by (intros E; rewrite E in Hcl_in; contradiction).
+      destruct (run_newest_last (cf_min_distance cf) (cf_intervals cf) arr HN Hne) as (k' & Hl' & _ & Hmax).
+      rewrite <- Hro, Elast in Hl'. injection Hl' as <-. exact Hmax.
+  - rewrite Htot, Hparts, Hlags. apply total_lag_sum. unfold part_lags. apply Forall_forall. intros z Hz.
+    apply in_flat_map in Hz as [[t cps] [Hin Hz]]. cbn [snd] in Hz. apply in_map_iff in Hz as [cp [<- Hcp]].
+    apply In_nth_error in Hcp as [i Hi]. unfold in_u64. eapply Hlag; eauto.
+Qed.
+
+(* [last_answer] in C11's terms: the value is the first offset of the ErrNoError answer that the broker asked for (t, p)
+   gave in a cycle of cluster c of the sequence, and no later cycle of the sequence got an answer for (t, p). *)
+Lemma last_answer_spec_gen c t p evs : forall ps h0 b,
+  pinv pc ps h0 -> Forall event_ok evs ->
+  last_answer pc ps evs c t p = Some b ->
+  exists evs1 tk e evs2 ps1 o1 h1 cs o cnt br ans rest,
+    evs = evs1 ++ ClusterCycle c tk e :: evs2 /\
+    pipe_exec name pc ps evs1 = Some (ps1, o1, h1) /\
+    get (p_cluster ps1) c = Some cs /\ CM.cycle (CM.tick tk cs) e = CM.Done o /\
+    In (t, p, b, cnt) (CM.co_updates o) /\
+    In (br, t, p) (CM.co_asks o) /\ CM.e_answer e br = CM.Good ans /\ ans t p = (0, b :: rest) /\
+    (forall ps2 outs2, pipe_step name pc ps1 (ClusterCycle c tk e) = Some (ps2, outs2) ->
+                       last_answer pc ps2 evs2 c t p = None).
+Proof.
+  induction evs as [|ev evs IH]; intros ps h0 b Hinv Hok Hla; cbn [last_answer] in Hla; [discriminate|].
+  inversion Hok as [|? ? Hev Hevs]; subst.
+  destruct (pipe_step_inv name pc HN H24 ps h0 ev Hinv Hev) as (ps' & outs & Hs & Hinv').
+  rewrite Hs in Hla.
+  destruct (last_answer pc ps' evs c t p) as [b'|] eqn:Erest.
+  - injection Hla as ->.
+    destruct (IH ps' _ b Hinv' Hevs Erest) as (evs1 & tk & e & evs2 & ps1 & o1 & h1 & cs & o & cnt & br & ans & rest & -> & He & H).
+    exists (ev :: evs1), tk, e, evs2, ps1, (outs ++ o1), (step_hist name pc ps ev ++ h1), cs, o, cnt, br, ans, rest.
+    split; [reflexivity|]. split; [cbn [pipe_exec]; rewrite Hs, He; reflexivity|exact H].
+  - destruct ev as [c' key value o|c' tk e|c' g sa|now]; cbn [answered_in] in Hla; try discriminate.
+    destruct (c' =? c) eqn:Ec; [|discriminate]. apply Z.eqb_eq in Ec. subst c'.
+    destruct (get (p_cluster ps) c) as [cs|] eqn:Eg; [|discriminate].
+    destruct (CM.cycle (CM.tick tk cs) e) as [o|] eqn:Ecy; [|discriminate].
+    destruct (find_update_in _ _ _ _ Hla) as [cnt Hin].
+    destruct Hinv as (_ & _ & _ & Hcl).
+    pose proof (CP.wf_tick tk cs (creach_wf cs (Hcl c cs Eg))) as Hw.
+    destruct (CP.answer_to_update _ _ _ Hw Ecy) as [Hiff _].
+    destruct (proj1 (Hiff t p b cnt) Hin) as (br & ans & rest & Ha & Hb & Hc & _).
+    exists [], tk, e, evs, ps, [], [], cs, o, cnt, br, ans, rest.
+    split; [reflexivity|]. split; [reflexivity|]. do 6 (split; [assumption|]).
+    intros ps2 outs2 Hs2. rewrite Hs in Hs2. injection Hs2 as <- _. exact Erest.
+Qed.
+
+Theorem last_answer_spec now0 c t p evs b :
+  Forall event_ok evs ->
+  last_answer pc (pinit pc now0) evs c t p = Some b ->
+  exists evs1 tk e evs2 ps1 o1 h1 cs o cnt br ans rest,
+    evs = evs1 ++ ClusterCycle c tk e :: evs2 /\
+    pipe_exec name pc (pinit pc now0) evs1 = Some (ps1, o1, h1) /\
+    get (p_cluster ps1) c = Some cs /\ CM.cycle (CM.tick tk cs) e = CM.Done o /\
+    In (t, p, b, cnt) (CM.co_updates o) /\
+    In (br, t, p) (CM.co_asks o) /\ CM.e_answer e br = CM.Good ans /\ ans t p = (0, b :: rest) /\
+    (forall ps2 outs2, pipe_step name pc ps1 (ClusterCycle c tk e) = Some (ps2, outs2) ->
+                       last_answer pc ps2 evs2 c t p = None).
+Proof. intros Hok. apply (last_answer_spec_gen c t p evs (pinit pc now0) [] b (pinv_init pc now0) Hok). Qed.
+
+End Main.
+
+End EndToEnd.
